@@ -6,10 +6,13 @@ package harness
 
 import (
 	"bytes"
+	"context"
 	"errors"
 	"fmt"
 	"io"
+	"io/fs"
 	"sync"
+	"syscall"
 
 	"github.com/ipfs/go-cid"
 	"github.com/ipfs/go-unixfsnode"
@@ -21,6 +24,7 @@ import (
 	"github.com/ipld/go-ipld-prime/linking"
 	cidlink "github.com/ipld/go-ipld-prime/linking/cid"
 	"github.com/ipld/go-ipld-prime/node/basicnode"
+	"pgregory.net/rapid"
 )
 
 const (
@@ -38,9 +42,41 @@ type notFoundErr struct{ c cid.Cid }
 func (e notFoundErr) Error() string  { return "verif-injected: block not found " + e.c.String() }
 func (e notFoundErr) NotFound() bool { return true }
 
-type ioFault struct{ what string }
+type ioFault struct {
+	what  string
+	inner error // optional well-known error value this fault wraps (see faultKinds)
+}
 
-func (e *ioFault) Error() string { return "verif-injected i/o fault: " + e.what }
+func (e *ioFault) Error() string {
+	if e.inner != nil {
+		return "verif-injected i/o fault: " + e.what + ": " + e.inner.Error()
+	}
+	return "verif-injected i/o fault: " + e.what
+}
+func (e *ioFault) Unwrap() error { return e.inner }
+
+// faultKinds: the error VALUE a storage fault carries. Real stores fail with errors that are, or wrap, well-known
+// values (a dropped connection is io.EOF / io.ErrUnexpectedEOF, a missing directory is fs.ErrNotExist, a cancelled request
+// is context.Canceled, a full disk is a short write); code that gives such values a meaning of its own ("end of input",
+// "entry vanished") must not apply that meaning to a storage failure.
+var faultKinds = []struct {
+	Name  string
+	Inner error
+}{
+	{"plain", nil},
+	{"wraps-io.EOF", io.EOF},
+	{"wraps-fs.ErrNotExist", &fs.PathError{Op: "open", Path: "/blocks/xx", Err: syscall.ENOENT}},
+	{"wraps-io.ErrUnexpectedEOF", io.ErrUnexpectedEOF},
+	{"wraps-context.Canceled", context.Canceled},
+	{"wraps-io.ErrShortWrite", io.ErrShortWrite},
+}
+
+func genFaultKind(t *rapid.T) int {
+	if rapid.Bool().Draw(t, "plainFault") {
+		return 0
+	}
+	return rapid.IntRange(1, len(faultKinds)-1).Draw(t, "faultKind")
+}
 
 // isInjected reports whether err is (or wraps, or at least textually carries) one of our faults.
 func isInjected(err error) bool {
@@ -70,6 +106,10 @@ type Store struct {
 
 	// write faults: 1-based index of the write open whose stage fails
 	FailOpenAt, FailWriteAt, FailCommitAt int
+	// PartialWrite: the failing Write accepts the first half of the bytes and returns (n > 0, err), as a full disk would
+	PartialWrite bool
+	// FaultKind selects the error value injected i/o faults carry (index into faultKinds; 0 = plain)
+	FaultKind int
 
 	// work budget (C13): once more than LoadBudget reads were requested every further read fails
 	LoadBudget     int
@@ -78,6 +118,14 @@ type Store struct {
 
 func NewStore() *Store {
 	return &Store{Blocks: map[cid.Cid][]byte{}, Missing: map[cid.Cid]bool{}}
+}
+
+func (s *Store) fault(what string) error {
+	k := s.FaultKind
+	if k < 0 || k >= len(faultKinds) {
+		k = 0
+	}
+	return &ioFault{what: what, inner: faultKinds[k].Inner}
 }
 
 func (s *Store) ResetLogs() {
@@ -120,14 +168,14 @@ func (s *Store) openRead(_ linking.LinkContext, l datamodel.Link) (io.Reader, er
 	s.Reads = append(s.Reads, c)
 	if s.LoadBudget > 0 && len(s.Reads) > s.LoadBudget {
 		s.BudgetExceeded = true
-		return nil, &ioFault{"load budget exceeded"}
+		return nil, &ioFault{what: "load budget exceeded"}
 	}
 	if s.FailReadAt != 0 && len(s.Reads) == s.FailReadAt {
-		return nil, &ioFault{fmt.Sprintf("read #%d %s", s.FailReadAt, c)}
+		return nil, s.fault(fmt.Sprintf("read #%d %s", s.FailReadAt, c))
 	}
 	if s.Missing[c] {
 		if s.MissingIO {
-			return nil, &ioFault{"read " + c.String()}
+			return nil, s.fault("read " + c.String())
 		}
 		return nil, notFoundErr{c}
 	}
@@ -139,12 +187,17 @@ func (s *Store) openRead(_ linking.LinkContext, l datamodel.Link) (io.Reader, er
 }
 
 type faultWriter struct {
-	buf  bytes.Buffer
-	fail error
+	buf     bytes.Buffer
+	fail    error
+	partial bool
 }
 
 func (w *faultWriter) Write(p []byte) (int, error) {
 	if w.fail != nil {
+		if w.partial && len(p) > 1 {
+			n, _ := w.buf.Write(p[:len(p)/2])
+			return n, w.fail
+		}
 		return 0, w.fail
 	}
 	return w.buf.Write(p)
@@ -156,15 +209,16 @@ func (s *Store) openWrite(_ linking.LinkContext) (io.Writer, linking.BlockWriteC
 	k := s.Opens
 	s.mu.Unlock()
 	if k == s.FailOpenAt {
-		return nil, nil, &ioFault{fmt.Sprintf("write-open #%d", k)}
+		return nil, nil, s.fault(fmt.Sprintf("write-open #%d", k))
 	}
 	w := &faultWriter{}
 	if k == s.FailWriteAt {
-		w.fail = &ioFault{fmt.Sprintf("write #%d", k)}
+		w.fail = s.fault(fmt.Sprintf("write #%d", k))
+		w.partial = s.PartialWrite
 	}
 	return w, func(l datamodel.Link) error {
 		if k == s.FailCommitAt {
-			return &ioFault{fmt.Sprintf("commit #%d", k)}
+			return s.fault(fmt.Sprintf("commit #%d", k))
 		}
 		c := l.(cidlink.Link).Cid
 		s.mu.Lock()
